@@ -685,13 +685,17 @@ def gen_interrupt(rng: random.Random) -> dict:
     return {"program": [{"name": "g0", "nodes": nodes, "bound": []}], "values": values, "async_only": True}
 
 
-def gen_nested_gate_loop(rng: random.Random) -> dict:
+def gen_nested_gate_loop(rng: random.Random, force: bool = False) -> dict:
     """A loop driven by two stacked gates: `outer` routes to the gate `inner` (or END); `inner` picks `bump` or `other`.
 
     Exercises gates that are themselves gate targets inside a cycle (a stale, non-runnable inner gate)."""
     n = rng.randint(0, 4)
     x0 = rng.randint(0, 2)
     pick_other_at = rng.choice([None, None, rng.randint(0, 4)])
+    if force:
+        # the loop turns at least twice, `other` is never selected, and the inner gate is open by default: after the outer gate says END the
+        # inner gate's decision goes stale while the inner gate can no longer run — its never-selected target stays off
+        n, pick_other_at = x0 + rng.randint(2, 4), None
     outer_kind = rng.choice(["route", "ifelse"])
     if outer_kind == "route":
         outer = {"name": "outer", "kind": "route", "params": [["x", None]], "targets": ["inner", "__END__"],
@@ -701,7 +705,7 @@ def gen_nested_gate_loop(rng: random.Random) -> dict:
                  "body": {"b": "lt", "k": n}, "defaultOpen": rng.random() < 0.7}
     rows = [[v, "bump"] for v in range(0, 8) if v != pick_other_at] + ([[pick_other_at, "other"]] if pick_other_at is not None else [])
     inner = {"name": "inner", "kind": "route", "params": [["x", None]], "targets": ["bump", "other"],
-             "body": {"b": "table", "rows": rows, "dflt": "bump"}, "defaultOpen": rng.random() < 0.7}
+             "body": {"b": "table", "rows": rows, "dflt": "bump"}, "defaultOpen": True if force else rng.random() < 0.7}
     bump = _fn_node("bump", [["x", None]], ["x"], {"b": "sum", "k": 1})
     other = _fn_node("other", [["x", None]], ["side"], {"b": "tag", "t": "other"})
     nodes = [outer, inner, bump, other]
